@@ -73,6 +73,13 @@ class Built:
                 tail = f"return call_next({args})"
             else:
                 tail = f"return ('ret', {mid})"
+        elif body == "fnext":
+            # the same delegation spelled with the function's .next attribute (Ovld.next reads the caller's code object)
+            npos = len(d["pos"])
+            if d["npos_req"] == npos and not d.get("kw"):
+                tail = f"return OV.next({', '.join(pnames)})"
+            else:
+                tail = f"return ('ret', {mid})"
         elif body == "nextv":
             npos = len(d["pos"])
             if d["npos_req"] == npos and not d.get("kw"):
@@ -101,7 +108,7 @@ class Built:
         src = f"def m{mid}({', '.join(params)}):\n    {rec}\n    {tail}\n"
         fname = f"<verif-prog-{next(_file_ids)}>"
         linecache.cache[fname] = (len(src), None, src.splitlines(True), fname)
-        glb = {"LOG": self.log, "RECUR": [], "ALT": alt_value, "OTHER": self.other_instance, "DEFAULT": DEFAULT, "call_next": call_next, "recurse": recurse, "__name__": "verif_prog"}
+        glb = {"LOG": self.log, "RECUR": [], "ALT": alt_value, "OTHER": self.other_instance, "DEFAULT": DEFAULT, "call_next": call_next, "recurse": recurse, "OV": self.ov, "__name__": "verif_prog"}
         exec(compile(src, fname, "exec"), glb)
         fn = glb[f"m{mid}"]
         fn.__annotations__ = anns
@@ -159,7 +166,7 @@ class Built:
 
         omro._verif_reorder = reorder
 
-    def call(self, pos, kw=None):
+    def call(self, pos, kw=None, ov=None):
         """returns (outcome, entered) with outcome = ["run", mid] | ["nomethod"] | ["ambig"] | ["exc", name];
         entered = list of method ids whose bodies ran, in order"""
         kw = kw or {}
@@ -167,7 +174,7 @@ class Built:
         del self.log[:]
         del self.predlog[:]
         try:
-            r = self.ov(*pos, **kw)
+            r = (ov if ov is not None else self.ov)(*pos, **kw)
             out = ["run", r[1]] if isinstance(r, tuple) and r and r[0] == "ret" else ["value", repr(r)]
         except TypeError as e:
             msg = str(e)
